@@ -131,3 +131,60 @@ Example mid_put_commit_refuted :
   let D := c_durable (run_micro true s (combine ms flags)) in
   t_records D = [] /\ t_records T <> [] /\ t_records (c_working (run_micro true s (combine ms flags))) <> [].
 Proof. vm_compute. repeat split; discriminate. Qed.
+
+(** ---- whole histories: the crash image is a state between two operations, not older than
+         the last flush ---- *)
+Definition is_flush (ms : list micro) : bool := match ms with [MCommit] => true | _ => false end.
+
+(** [since]: the working states at the operation boundaries since the last flush (newest first) *)
+Fixpoint crash_ok (s : cstate) (since : list tables) (ops : list (list micro * list bool)) : Prop :=
+  match ops with
+  | [] => True
+  | (ms, fl) :: rest =>
+      let steps := combine ms fl in
+      let s' := run_micro false s steps in
+      (forall x, In x (trace false s steps) -> In (c_durable x) (c_working s' :: since)) /\
+      crash_ok s' (if is_flush ms then [c_working s'] else c_working s' :: since) rest
+  end.
+
+Definition settled_c (s : cstate) : Prop := c_write_open s = false -> c_durable s = c_working s.
+
+Lemma micro_step_settled s m g : settled_c s -> settled_c (micro_step false s m g).
+Proof.
+  unfold settled_c. intros H. destruct m; cbn.
+  - destruct (c_write_open s && g); cbn; discriminate.
+  - discriminate.
+  - destruct (c_write_open s) eqn:O; cbn; auto.
+Qed.
+Lemma run_micro_settled ms : forall s, settled_c s -> settled_c (run_micro false s ms).
+Proof. induction ms as [|[m g] ms IH]; intros s H; cbn; auto. apply IH. now apply micro_step_settled. Qed.
+
+Theorem history_crash_images ops : forall s since,
+  Forall (fun op => shaped (fst op) /\ length (snd op) = length (fst op)) ops ->
+  settled_c s -> In (c_durable s) since -> In (c_working s) since ->
+  crash_ok s since ops.
+Proof.
+  induction ops as [|[ms fl] ops IH]; intros s since F ST D W; cbn [crash_ok]; auto.
+  inversion F as [|? ? [SH L] F']; subst. cbn [fst snd] in *.
+  set (steps := combine ms fl). set (s' := run_micro false s steps).
+  pose proof (op_durable_is_boundary ms fl s SH L) as B. cbv zeta in B. fold steps in B. fold s' in B.
+  assert (ST' : settled_c s') by (apply run_micro_settled; auto).
+  split.
+  - intros x Hx. destruct (B x (or_introl Hx)) as [E|[E|E]]; rewrite E; [now right|now right|now left].
+  - destruct (is_flush ms) eqn:FL.
+    + (* an explicit flush: afterwards durable = working *)
+      destruct ms as [|[| |] [|m2 r]]; try discriminate.
+      destruct fl as [|g [|g2 r]]; cbn in L; try discriminate.
+      assert (E : c_durable s' = c_working s').
+      { unfold s', steps. cbn. destruct (c_write_open s) eqn:O; cbn; auto. }
+      apply IH; auto; rewrite ?E; now left.
+    + apply IH; auto.
+      * destruct (B s' (or_intror eq_refl)) as [E|[E|E]]; rewrite E; [now right|now right|now left].
+      * now left.
+Qed.
+
+(** the usual start: a store that was just flushed *)
+Corollary history_from_flushed ops T :
+  Forall (fun op => shaped (fst op) /\ length (snd op) = length (fst op)) ops ->
+  crash_ok (mkC T T false) [T] ops.
+Proof. intros F. apply history_crash_images; auto; [intros _; reflexivity|now left|now left]. Qed.
